@@ -530,6 +530,18 @@ def run(ctx):
     }
     apply_cases = []
 
+    def scribble(x, depth=0):
+        if isinstance(x, dict):
+            for k in list(x):
+                scribble(x[k], depth + 1)
+                if not isinstance(x[k], (dict, list)):
+                    x[k] = "scribbled"
+            x["scribbled_key"] = depth
+        elif isinstance(x, list):
+            for y in x:
+                scribble(y, depth + 1)
+            x.append("scribbled")
+
     def add_apply(u, tag):
         u0 = copy.deepcopy(u)
         r, err = observe(C.apply_default_config, u)
@@ -559,6 +571,11 @@ def run(ctx):
         if err2 is not None or not same(r2, r):
             fail("apply-not-idempotent", "apply_default_config is not idempotent", input=jd(u0), expected=jd(r),
                  observed=jd(r2) if err2 is None else err2)
+        # the caller owns the effective configuration it was given: scribble over every container of it, so that any
+        # sharing with state kept between calls (cached defaults) shows up in the NEXT case as a wrong default
+        for res in (r, r2 if err2 is None else None):
+            scribble(res)
+        ctx.count("apply: result scribbled over before the next call")
 
     add_apply({}, "edge")
     add_apply(copy.deepcopy(defaults), "defaults")
